@@ -10,8 +10,12 @@ def _replace(__obj, **changes):
 
     # Fix https://bugs.python.org/issue36470
     assert is_dataclass(__obj)
+    init_vars = set()
     for name, field in getattr(__obj, _FIELDS).items():
-        if field._field_type == _FIELD_INITVAR and name not in changes:
+        if field._field_type == _FIELD_INITVAR:
+            init_vars.add(name)
+            if name in changes:
+                continue
             if field.default is not MISSING:
                 changes[name] = field.default
             elif field.default_factory is not MISSING:
@@ -19,7 +23,10 @@ def _replace(__obj, **changes):
 
     result = replace_(__obj, **changes)
     if hasattr(__obj, FIELDS_SET_ATTR):
-        set_fields(result, *fields_set(__obj), *changes, overwrite=True)
+        # InitVar are not fields (same as in with_fields_set __init__)
+        set_fields(
+            result, *fields_set(__obj), *(changes.keys() - init_vars), overwrite=True
+        )
     return result
 
 
